@@ -351,6 +351,7 @@ def gen_specs(chk):
     add("cells_beyond_right_border", c06_gen.overhang_specs(rng))
     add("negative_columns", c06_gen.neg_cols_specs(rng))
     add("negative_only_rows(C06-F3 regression)", c06_gen.neg_only_specs(rng))
+    add("config_change_one_renderer(depth/style/transformation only)", c06_gen.depth_change_specs(rng))
     n_small, n_big, n_tr = (12000, 6000, 1500) if thorough else (1500, 500, 150)
     add("random_small", (c06_gen.rand_spec(rng, 7, 4, rng.randint(1, 8)) for _ in range(n_small)))
     add("random_narrow_only", (c06_gen.rand_spec(rng, 7, 4, rng.randint(1, 8), wide_ok=False) for _ in range(n_small // 3)))
@@ -373,7 +374,8 @@ def jsonable_spec(spec):
                         {"height": scr["height"], "show_cursor": bool(scr["show_cursor"]),
                          "cursor": list(scr["cursor"]) if scr["cursor"] is not None else None,
                          "rows": [[y, [[x, c[0], c[1]] for x, c in sorted(r.items())]] for y, r in sorted(scr["rows"].items())],
-                         "zwe": [[y, x, i] for (y, x), i in sorted(scr.get("zwe", {}).items())]}])
+                         "zwe": [[y, x, i] for (y, x), i in sorted(scr.get("zwe", {}).items())],
+                         "mouse": 1 if scr.get("mouse", 0) else 0, "shape": int(scr.get("shape", 0))}])
         else:
             ops.append([op[0]])
     return {"fs": bool(spec["fs"]), "cfgs": [list(c) for c in spec["cfgs"]], "ops": ops}
@@ -387,7 +389,8 @@ def spec_from_json(j):
             scr = {"height": s["height"], "show_cursor": s["show_cursor"],
                    "cursor": tuple(s["cursor"]) if s["cursor"] is not None else None,
                    "rows": {y: {x: (c, st) for x, c, st in cells} for y, cells in s["rows"]},
-                   "zwe": {(y, x): i for y, x, i in s["zwe"]}}
+                   "zwe": {(y, x): i for y, x, i in s["zwe"]},
+                   "mouse": s.get("mouse", 0), "shape": s.get("shape", 0)}
             ops.append(("render", op[1], op[2], op[3], op[4], scr))
         else:
             ops.append((op[0],))
@@ -533,14 +536,14 @@ def main(tier):
         "case = (full_screen, style/depth configurations, sequence of render(screen, size, cfg, is_done)/erase/reset) run on the real "
         "Renderer writing to Vt100_Output(StringIO) and on the Coq model; compared: the token stream of every operation and the terminal "
         "state after it (Python terminal on the real bytes vs Coq terminal on the model's tokens); oracle: incremental == from-scratch "
-        "(cells modulo attributes invisible on a blank, cursor, visibility, pen, autowrap), rows owned, no scroll, done epilogue. "
+        "(cells modulo attributes invisible on a blank, cursor, visibility, pen, autowrap), rows owned, no scroll, done epilogue, terminal modes. "
         "Exhaustive: all (previous,new) one-row screens of width 1,2 (and 3: %s) over 6 cell kinds; random sequences up to 12x40; "
         "non-trivial = some operation emitted more than 6 tokens; distinct by hash of the case" % ("100%" if tier == "thorough" else "3% sample"))
     chk.assumptions += [
         "the terminal is a model: coq/Model/C06_Terminal.v defines the VT100 subset (CUU/CUD/CUF/CUB with parameter 0 = 1, CR, LF, BS, EL, ED with background-colour-erase, SGR as opaque pen, ?7h/l, ?25h/l, CSI H); the compared terminal is BOUNDED: H rows below the origin (H = the size given to the render; assumed free again after every final render, i.e. CPR/height negotiation is outside), a line feed on the last row scrolls and is counted; rows above the origin (scrollback) exist and must stay untouched",
         "SGR strings are opaque pens; which attributes are invisible on a blank is read off the SGR parameters (bold/italic/hidden, and the foreground colour when nothing is drawn with it)",
         "theorems are for screens whose visible columns hold narrow cells, wide cells followed by their shadow and not straddling the right edge (wf_screen, transcribed as in_theorem_domain and counted in input_distribution); half-covered wide characters (finding C06-F2) are outside; a bare reset() is judged (and proved) where the cursor is in column 0 - after construction, a final render, an erase, a reset, or a render whose cursor column is 0; elsewhere it is correspondence only",
-        "cell texts are single code points (width 1 or 2) or the empty shadow cell; mouse support, cursor shapes, titles, alternate-screen buffer switching and terminal resize reflow are outside the model"]
+        "cell texts are single code points (width 1 or 2) or the empty shadow cell; mode toggles (alternate screen, bracketed paste, cursor-key mode, mouse support, cursor shapes) are in the model as raw sequences with their bookkeeping state and compared token for token, the oracle compares the resulting mode state with a from-scratch render; the alternate-screen BUFFER contents, titles and terminal resize reflow are outside the model; a cursor shape config switching to _NEVER_CHANGE mid-sequence is not generated (it leaves the old shape by design)"]
     return chk.finish()
 
 
